@@ -116,6 +116,11 @@ def _ti_image_platform(ti, value):
     ti.images.images[value] = {"kernel": "images/vmlinuz"}
 
 
+def _ti_image_arch_platform(ti, value):
+    ti.tree.platforms.discard(ti.tree.arch)
+    ti.images.images[ti.tree.arch] = {"kernel": "images/vmlinuz"}
+
+
 def _ti_checksum_abs(ti, value):
     ti.checksums.checksums[value] = ("sha256", "a" * 64)
 
@@ -220,6 +225,8 @@ SLOTS += [
     Slot("treeinfo", "images.absolute-path", lambda ti: [ti] if ti.images.images else [], ["/abs/vmlinuz", "/", "//x"],
          apply=_ti_image_abs, backs=["treeinfo.Images._validate_image_paths"]),
     Slot("treeinfo", "images.platform-not-listed", lambda ti: [ti], ["sparc64x", "nowhere"], apply=_ti_image_platform,
+         backs=["treeinfo.Images._validate_platforms"]),
+    Slot("treeinfo", "images.tree-arch-platform-not-listed", lambda ti: [ti], ["(tree arch)"], apply=_ti_image_arch_platform,
          backs=["treeinfo.Images._validate_platforms"]),
     attr_slot("treeinfo", "stage2.mainimage-absolute", lambda ti: [ti.stage2], "mainimage", ["/abs/squashfs.img", "/"],
               backs=["treeinfo.Stage2._validate_mainimage"]),
